@@ -87,6 +87,9 @@ static ps_priv_t *alloc_ps_msg(const ps_priv_t *msg, ev_src_t *sub) {
         memcpy(m, msg, sizeof(ps_priv_t));
         m->msg.sender = m_mem_ref((void *)m->msg.sender); // keep module alive until message is dispatched
         m->sub = m_mem_ref(sub); // keep subscription alive too: it may be removed while message is in flight
+        if (m->autofree_refs) {
+            (*m->autofree_refs)++; // one more owner for the autofree data
+        }
     }
     return m;
 }
@@ -94,8 +97,10 @@ static ps_priv_t *alloc_ps_msg(const ps_priv_t *msg, ev_src_t *sub) {
 static void ps_msg_dtor(void *data) {
     ps_priv_t *pubsub_msg = (ps_priv_t *)data;
     
-    if (pubsub_msg->flags & M_PS_AUTOFREE) {
+    /* Autofree data is shared between all the recipients of the message: last one frees it */
+    if (pubsub_msg->autofree_refs && --(*pubsub_msg->autofree_refs) == 0) {
         memhook._free((void *)pubsub_msg->msg.data);
+        memhook._free(pubsub_msg->autofree_refs);
     }
     if (pubsub_msg->msg.sender) {
         m_mem_unref((void *)pubsub_msg->msg.sender);
@@ -136,8 +141,19 @@ static int send_msg(m_mod_t *mod, const m_mod_t *recipient, const char *topic,
     M_PARAM_ASSERT(message);
 
     mod->stats.sent_msgs++;
-    ps_priv_t m = { { false, mod, topic, message }, flags, NULL };
-    return tell_pubsub_msg(&m, recipient, mod->ctx);
+    ps_priv_t m = { { false, mod, topic, message }, flags, NULL, NULL };
+    if (flags & M_PS_AUTOFREE) {
+        m.autofree_refs = memhook._calloc(1, sizeof(size_t));
+        M_ALLOC_ASSERT(m.autofree_refs);
+        *m.autofree_refs = 1; // sender's own, while message is being sent
+    }
+    int ret = tell_pubsub_msg(&m, recipient, mod->ctx);
+    if (m.autofree_refs && --(*m.autofree_refs) == 0) {
+        /* Nobody received the message */
+        memhook._free((void *)message);
+        memhook._free(m.autofree_refs);
+    }
+    return ret;
 }
 
 /** Private API **/
@@ -147,7 +163,7 @@ int tell_system_pubsub_msg(const m_mod_t *recipient, m_ctx_t *c, m_mod_t *sender
         // A module sent a M_PS_MOD_POISONPILL message to another, or it was stopped
         sender->stats.sent_msgs++;
     }
-    ps_priv_t m = { { true, sender, topic, NULL }, 0, NULL };
+    ps_priv_t m = { { true, sender, topic, NULL }, 0, NULL, NULL };
     return tell_pubsub_msg(&m, recipient, c);
 }
 
